@@ -125,9 +125,10 @@ class FakeSocket:
         if self.net.write_len is not None and not self.harness_side:
             n = max(0, min(len(data), self.net.write_len(self, len(data))))
         cur = s.cur()
-        self.send_log.append((cur.name if cur else None, len(data), n))
+        self.send_log.append((cur.name if cur else None, len(data), n, s.steps, len(self.sent_total) + n))
         if n == 0:
             self.net.blocked_sends += 1
+            self.blocked_until = s.now + 0.0005      # send buffer full: not writable until the peer drains it
             raise BlockingIOError(errno.EAGAIN, "Resource temporarily unavailable")
         if n < len(data):
             self.net.partial_sends += 1
@@ -176,8 +177,10 @@ class FakeSocket:
             return bool(self.backlog)
         return bool(self.rx) or self.reset or (self.peer is not None and self.peer.closed) or self.state == "refused"
 
+    blocked_until = 0.0
+
     def writable(self):
-        return self.state in ("conn", "refused") and not self.closed
+        return self.state in ("conn", "refused") and not self.closed and self.net.s.now >= self.blocked_until
 
 
 class VSelector(selectors._BaseSelectorImpl):
